@@ -322,11 +322,14 @@ def longConstError (callback : Bool) (prog : Program) (msg : Sexp) : Bool :=
 
 /-- `(setup X)`: a crash while `setup()` evaluates the binding in the initial state is a failure iff the reference
     semantics defines a value there -/
-def setupFailure (p : Parsed) (prop : String) (prog : Program) (setup : Sexp) : Option Sexp :=
+def setupFailure (p : Parsed) (prop : String) (prog : Program) (setup : Sexp) (v : Variant := {}) (doc : String := "MyType") :
+    Option Sexp :=
   match setup, p.init with
   | .list [.atom "setup", .atom x], some init =>
     if x = "sigsegv" ∨ x = "sigfpe" ∨ x = "ub" ∨ x = "unreachable" ∨ x = "signal" ∨ x = "died" then
-      match QV.Spec.Sem.bindingValue (specCtx p.enums) prog (worldOf init) (propTyOf p.enums prop) with
+      -- the same context as specValues: the finding variant and the document type name of THIS program of the batch
+      -- (the translation context of qsTr is part of every string value)
+      match QV.Spec.Sem.bindingValue (specCtx p.enums v doc) prog (worldOf init) (propTyOf p.enums prop) with
       | some v => some (.list [.atom "setup", .atom x, .atom "spec", showVal v])
       | none => none
     else none
@@ -350,12 +353,17 @@ def handleSpecC01 (args : List Sexp) (v : Variant := {}) : Sexp :=
         | (prop, prog) :: ps, rs =>
           let r := rs.head?.getD (.list [.atom "r", .atom "missing"])
           (match r with
+           | .list (.atom "r" :: .atom "ok" :: .list [.atom "setup", .atom "assert"] :: _) =>
+             -- the debug guard of the generated code ("binding loop detected") fired while setup() evaluated the binding:
+             -- the program reads its own target property (a self-dependent binding; loops are outside the property, see
+             -- C02's assumptions) and the process does not survive the guard — nothing is compared, the program is counted
+             go (k + 1) cmp und (skipped + 1) bad ps (rs.drop 1)
            | .list (.atom "r" :: .atom "ok" :: setup :: vals) =>
              let impl := vals.map fun v => match v with
                | .list (.atom "fail" :: _) => none
                | v => some v
              let (c, u, b) := compareValues (specValues p prop prog v (batchDoc k)) impl
-             let bad1 := match setupFailure p prop prog setup with
+             let bad1 := match setupFailure p prop prog setup v (batchDoc k) with
                | some f => bad ++ [.list [.atom "p", .ofNat k, .atom "setup-crash", f]]
                | none => bad
              let bad' := if b.isEmpty then bad1 else bad1 ++ [.list (.atom "p" :: .ofNat k :: .atom "value" :: b.take 3)]
